@@ -24,7 +24,7 @@ def envelope(r):
 
 
 CASES_QUICK = [("CC", "F2", "charm", 3, 1, "charm"), ("CC", "F3", "bottom", 3, 1, "bottom"), ("CC", "FL", "charm", 3, 1, "charm"),
-               ("NC", "g1", "charm", 3, 1, "charm"), ("NC", "g1", "bottom", 3, 1, "bottom"),
+               ("NC", "g1", "charm", 3, 1, "charm"), ("NC", "g1", "bottom", 3, 1, "bottom"), ("NC", "F3", "charm", 3, 1, "charm"),
                ("NC", "F3", "light", 3, 2, "charm"), ("NC", "g1", "light", 4, 2, "bottom")]
 CASES_MORE = [("CC", "F2", "bottom", 3, 1, "bottom"), ("CC", "FL", "bottom", 4, 1, "bottom"), ("CC", "F3", "charm", 3, 1, "charm"), ("CC", "F2", "bottom", 4, 1, "bottom"),
               ("NC", "g1", "bottom", 4, 1, "bottom"), ("EM", "g1", "charm", 3, 1, "charm"), ("NC", "F3", "light", 4, 2, "bottom"), ("EM", "g1", "light", 3, 2, "charm"),
@@ -102,7 +102,7 @@ def patrol(chk, cases):
     chk.patrol["ffns_vs_ffn0"] = dict(cases=len(cases), failures=bad, distribution=dist, crashed_not_counted=crashed,
                                       rule="real FFNS and FFN0 runs of the same card at Q2/m2 = 1e2, 1e4, 1e6 (x = 0.01, 0.1, 0.5): per order and per parton row, the difference of the "
                                            "operators relative to the size of the massive operator must stay below 4 (m2/Q2)(1 + ln Q2/m2)^2; CC F2/FL/F3 charm/bottom, NC g1 "
-                                           "charm/bottom, NC F3/g1 light (missing channel) at NNLO")
+                                           "charm/bottom, NC F3 charm (heavy-quark-initiated rows only), NC F3/g1 light (missing channel) at NNLO")
     return bad
 
 
